@@ -17,6 +17,8 @@ def run(ctx):
     pols, cfgs = quoter_audits(ctx, ch2=False)   # the dropped-surrogate clause (CH2) belongs to C01/C05
     table_checks(ctx, pols, cfgs, {"upper", "lower", "pct", "protect", "keep", "stable"})
     K = make_kinds(ctx.model)
+    from .common import claim_in, constructor_function
+    claim_in(ctx, ("K2", "K3"), constructor_function, "the parsing constructor")
     k2_k3(ctx, K)       # the parsing constructor applies requoters (not the escaping quoters) to the text it cuts out
     k1(ctx, K, only={"_url.encode_url"})
     # the authority is re-assembled by the constructor: printer and splitter must be inverse, port 0 is not "absent"
@@ -24,3 +26,5 @@ def run(ctx):
     port.sh5(ctx)
     ctx.extra["exhaustive_tables"] = {f"{b}:{n}": {"literal": "".join(sorted(p["literal"])), "decodable": "".join(sorted(p["decodable"]))}
                                       for b, d in pols.items() for n, p in d.items()}
+    from ..rules import port as _port
+    _port.prt3(ctx)        # a canonical port (0..65535, decimal) is accepted: the range check is exact
